@@ -53,6 +53,7 @@ type NodeDiff struct {
 	Case   []string `json:"case"`
 	Direct string   `json:"direct"`
 	Node   string   `json:"node"`
+	Safe   bool     `json:"safe"` // schema free of the shapes the known AssignNode defect needs
 }
 
 const driverSrc = `package main
@@ -270,7 +271,7 @@ func Run(run string, schemas []*lib.SchTy, cases []*Case, rng *lib.Rng, nodeDiff
 				for _, c := range nc {
 					st.NodeRuns++
 					if c.Obs != direct[c.ID] {
-						diffs = append(diffs, NodeDiff{Case: []string{c.ID, "gennode", schemas[c.SI].Text(), string(c.Level), "node", c.V.Text(), direct[c.ID] + "#" + c.Obs}, Direct: direct[c.ID], Node: c.Obs})
+						diffs = append(diffs, NodeDiff{Case: []string{c.ID, "gennode", schemas[c.SI].Text(), string(c.Level), "node", c.V.Text(), direct[c.ID] + "#" + c.Obs}, Direct: direct[c.ID], Node: c.Obs, Safe: schemas[c.SI].AssignNodeSafe()})
 					}
 				}
 			}
